@@ -10,9 +10,9 @@ for n in $NAMES; do
   S=$(mktemp -d /tmp/rfx_XXXX)
   cp -r /repo/minecraft /repo/tests $S/
   if ! (cd $S && patch -p1 -s < /verif/selftest/refactors/$n.diff); then echo "$n PATCH-FAILED (refactor is stale w.r.t. /repo)"; rm -rf $S; continue; fi
-  out=$(selftest/run_on_tree.sh $S "${IDS}")
+  out=$(selftest/run_on_tree.sh $S ${IDS})
   nz=$(echo "$out" | grep -v "rc=0" )
-  if [ -z "$nz" ]; then echo "$n QUIET ($(echo "$out" | wc -l) checks)"; else echo "$n NOT-QUIET:"; echo "$nz"; bad=1; fi
+  if [ -z "$nz" ] && [ $(echo "$out" | wc -l) -ge 1 ] && echo "$out" | grep -q "rc=0"; then echo "$n QUIET ($(echo "$out" | wc -l) checks)"; else echo "$n NOT-QUIET:"; echo "$nz"; bad=1; fi
   rm -rf $S
 done
 exit $bad
